@@ -450,3 +450,30 @@ SPECS["C04"] = {
     "level_note": "integer results are compared by value (Natural 2 and Integer 2 are the same number); reals within 4 ulp relative",
     "assumptions": ["unary minus binds to the literal (-3^2 = 9), as Tests/EvaluateTest.hpp pins"],
 }
+
+
+# ---------------------------------------------------------------------------------------------- C18
+def plan_c18(tier, seed):
+    if tier == "quick":
+        return checks("main", 8, 8000)
+    return checks("main", 14, 150000) + checks("nohook_avx2", 2, 100000)
+
+
+SPECS["C18"] = {
+    "builds": {
+        "main": Build("main", "harness/c18_groupby.cpp"),
+        "nohook_avx2": Build("nohook_avx2", "harness/c18_groupby.cpp", hook=False, simd="avx2"),
+    },
+    "default_build": "main",
+    "plan": plan_c18,
+    "rule": ("case = entropy bytes -> array of 0-12 objects built through the public API; each holds the group key at a random member position with a value from a small "
+             "set of strings, unsigned/negative integers, reals, true/false/null (so groups repeat and 2.0 / 2 / \"1\" / 1 collide textually), a unique id member at a "
+             "random position, 0-4 other members of any kind (scalars, nested array/object), and in a quarter of the objects 1-2 members that were inserted and "
+             "removed again; grouped through Value::GroupBy and through <loop group=...> with a nested loop; non-trivial = at least 2 objects; distinct by entropy"),
+    "engine": "rapidcheck",
+    "technique": "property-based testing (rapidcheck) against a reference partition computed on the generator's description of the objects",
+    "level_text": ("The canonical JSON text of GroupBy's result must equal the text of the reference partition (groups in order of first appearance, members in input "
+                   "order, key removed, other members unchanged), the source must be unchanged, and a <loop group=...> must print the same partition. Sampling."),
+    "level_note": "the reference spells group names like the library documents: strings as is, numbers as their text (reals %.15g), true/false/null",
+    "assumptions": ["group key values are non-empty (an empty group name is an undocumented edge of loop-key printing)"],
+}
